@@ -1,10 +1,12 @@
 //go:build verif
 
-package config
+package config_test
 
 import (
 	"encoding/json"
 	"fmt"
+	"github.com/mdlayher/corerad/internal/config"
+	"github.com/mdlayher/corerad/verifrt/ref"
 	"strings"
 	"testing"
 	"time"
@@ -24,12 +26,12 @@ import (
 // the clock twice within one RA sees two successive readings).
 
 type c16Case struct {
-	Epoch     int       `json:"epoch"`      // index into c16Epochs
-	Life      int       `json:"lifetimes"`  // index into c16Lifes
-	Kind      string    `json:"kind"`       // prefix | prefix-auto | route | route-auto
-	Dep       bool      `json:"deprecated"` // stanza deprecated?
-	Offsets   []string  `json:"clock"`      // successive clock readings, relative to epoch (durations)
-	PerApply  int       `json:"readings_per_apply"`
+	Epoch    int      `json:"epoch"`      // index into c16Epochs
+	Life     int      `json:"lifetimes"`  // index into c16Lifes
+	Kind     string   `json:"kind"`       // prefix | prefix-auto | route | route-auto
+	Dep      bool     `json:"deprecated"` // stanza deprecated?
+	Offsets  []string `json:"clock"`      // successive clock readings, relative to epoch (durations)
+	PerApply int      `json:"readings_per_apply"`
 }
 
 var c16Epochs = []time.Time{
@@ -55,24 +57,24 @@ func c16Instants(l c16Life) []time.Duration {
 	}
 }
 
-func c16Doc(c c16Case) vDoc {
+func c16Doc(c c16Case) ref.Doc {
 	l := c16Lifes[c.Life]
-	ifi := vIface{Scalars: vTable{"name": "eth0", "advertise": true}}
+	ifi := ref.Iface{Scalars: ref.Table{"name": "eth0", "advertise": true}}
 	switch c.Kind {
 	case "prefix", "prefix-auto":
-		t := vTable{"valid_lifetime": l.Valid.String(), "preferred_lifetime": l.Pref.String(), "deprecated": c.Dep}
+		t := ref.Table{"valid_lifetime": l.Valid.String(), "preferred_lifetime": l.Pref.String(), "deprecated": c.Dep}
 		if c.Kind == "prefix" {
 			t["prefix"] = "2001:db8::/64"
 		}
-		ifi.Prefix = []vTable{t}
+		ifi.Prefix = []ref.Table{t}
 	default:
-		t := vTable{"lifetime": l.Valid.String(), "deprecated": c.Dep}
+		t := ref.Table{"lifetime": l.Valid.String(), "deprecated": c.Dep}
 		if c.Kind == "route" {
 			t["prefix"] = "2001:db8:ffff::/48"
 		}
-		ifi.Route = []vTable{t}
+		ifi.Route = []ref.Table{t}
 	}
-	return vDoc{Ifaces: []vIface{ifi}}
+	return ref.Doc{Ifaces: []ref.Iface{ifi}}
 }
 
 func c16Remain(epoch time.Time, life time.Duration, now time.Time) time.Duration {
@@ -86,7 +88,7 @@ func c16Remain(epoch time.Time, life time.Duration, now time.Time) time.Duration
 func c16Check(c c16Case) [][2]string {
 	epoch := c16Epochs[c.Epoch]
 	l := c16Lifes[c.Life]
-	cfg, err := Parse(strings.NewReader(c16Doc(c).TOML()), epoch)
+	cfg, err := config.Parse(strings.NewReader(c16Doc(c).TOML()), epoch)
 	if err != nil {
 		return [][2]string{{"C16:rejected", "valid deprecated stanza rejected: " + err.Error()}}
 	}
@@ -159,7 +161,7 @@ func c16Check(c c16Case) [][2]string {
 		}
 		// The readings this Apply took bound what it may report: with first
 		// reading tmin and last tmax (tmin<=tmax), any value between
-		// remain(tmax) and remain(tmin) is a faithful "time remaining at that moment".
+		// ref.Remain(tmax) and ref.Remain(tmin) is a faithful "time remaining at that moment".
 		if len(reads) == 0 {
 			// Clock not consulted: judge the values against the reading the
 			// clock would have given (the property is about values only).
